@@ -771,6 +771,10 @@ func (runInfo *runInfoStruct) invokeMakeTypeExpr(expr *ast.MakeTypeExpr) {
 		return
 	}
 
+	if runInfo.rv.Kind() == reflect.Interface && !runInfo.rv.IsNil() {
+		runInfo.rv = runInfo.rv.Elem()
+	}
+
 	// if expr.Name has a dot in it, it should give a syntax error, so no needs to check err
 	runInfo.env.DefineReflectType(expr.Name, runInfo.rv.Type())
 
@@ -894,6 +898,9 @@ func (runInfo *runInfoStruct) invokeIncludeExpr(expr *ast.IncludeExpr) {
 		return
 	}
 
+	if runInfo.rv.Kind() == reflect.Interface && !runInfo.rv.IsNil() {
+		runInfo.rv = runInfo.rv.Elem()
+	}
 	if runInfo.rv.Kind() != reflect.Slice && runInfo.rv.Kind() != reflect.Array {
 		runInfo.err = newStringError(expr, "second argument must be slice or array; but have "+runInfo.rv.Kind().String())
 		runInfo.rv = nilValue
